@@ -26,8 +26,9 @@ type table struct {
 }
 
 type cond struct {
-	kind string // eq, lt, gtc, notnull
+	kind string // eq, lt, gtc, notnull, eqcat
 	i, j int    // global column indexes in the concatenated row
+	k    int    // eqcat: col_i + col_j = col_k
 	c    float64
 }
 
@@ -60,6 +61,8 @@ func genTable(r *lib.Rng, idx int, maxRows int, domain int) table {
 		switch {
 		case i > 0 && r.Chance(1, 5):
 			row[2] = octosql.NewNull()
+		case idx == 2 && r.Chance(1, 2): // matches x0.p0 + x1.p1 of a computed join key
+			row[2] = octosql.NewString([]string{"u", "v", "w"}[r.Intn(3)] + []string{"u", "v", "w"}[r.Intn(3)])
 		default:
 			row[2] = octosql.NewString([]string{"u", "v", "w"}[r.Intn(3)])
 		}
@@ -112,6 +115,8 @@ func condSQL(tabs []table, c cond) string {
 		return colName(tabs, c.i) + " < " + colName(tabs, c.j)
 	case "gtc":
 		return fmt.Sprintf("%s > %.1f", colName(tabs, c.i), c.c)
+	case "eqcat":
+		return colName(tabs, c.i) + " + " + colName(tabs, c.j) + " = " + colName(tabs, c.k)
 	}
 	return colName(tabs, c.i) + " IS NOT NULL"
 }
@@ -124,6 +129,8 @@ func condCoq(c cond) string {
 		return fmt.Sprintf("CLt %d%%nat %d%%nat", c.i, c.j)
 	case "gtc":
 		return fmt.Sprintf("CGtC %d%%nat (VFloat %d)", c.i, math.Float64bits(c.c))
+	case "eqcat":
+		return fmt.Sprintf("CEqCat %d%%nat %d%%nat %d%%nat", c.i, c.j, c.k)
 	}
 	return fmt.Sprintf("CNotNull %d%%nat", c.i)
 }
@@ -221,6 +228,55 @@ func parseNative(out string, n int) ([]lib.Event, error) {
 	return evs, nil
 }
 
+// fixedFamily: (first join kind, second join kind) of  x0 <k1> x1 ON x0.k0a = x1.k1a <k2> x2 ON x0.p0 + x1.p1 = x2.p2
+// over fixedTables(): every outer/inner first join under every second join the grammar allows.
+func fixedFamily() [][2]int {
+	var out [][2]int
+	for _, k1 := range []int{0, 1, 2, 3} {
+		for _, k2 := range []int{0, 1, 2, 3, 4} {
+			if k2 == 4 && k1 != 0 {
+				continue
+			}
+			out = append(out, [2]int{k1, k2})
+		}
+	}
+	return out
+}
+
+// fixedTables: a matched pair, an unmatched row on each side of the first join, and third-table rows equal to the
+// concatenation of the matched payloads, to a single payload and to another single payload.
+func fixedTables() []table {
+	fl := func(x float64) octosql.Value { return octosql.NewFloat(x) }
+	st := func(x string) octosql.Value { return octosql.NewString(x) }
+	return []table{
+		{cols: []string{"k0a", "k0b", "p0"}, rows: [][]octosql.Value{{fl(1), fl(1), st("u")}, {fl(3), fl(3), st("u")}}},
+		{cols: []string{"k1a", "k1b", "p1"}, rows: [][]octosql.Value{{fl(1), fl(1), st("v")}, {fl(2), fl(2), st("w")}}},
+		{cols: []string{"k2a", "k2b", "p2"}, rows: [][]octosql.Value{{fl(0), fl(0), st("uv")}, {fl(0), fl(0), st("w")}, {fl(0), fl(0), st("u")}}},
+	}
+}
+
+// nodeTemplates: small script pairs whose every schedule is replayed for every join kind (key = column 0):
+// a key inserted, fully retracted and inserted again while the other side holds a row of that key (both orientations);
+// a side that ends with a record still in its event-time buffer while the other side sends a lower watermark and then
+// a matching record (both orientations); NULL keys; the first-round witness of the phase switch.
+func nodeTemplates() [][2][]Msg {
+	iv := func(k, p int64) []octosql.Value { return []octosql.Value{octosql.NewInt(k), octosql.NewInt(p)} }
+	rec := func(vals []octosql.Value, retr bool, et int64) Msg {
+		return Msg{Kind: kRec, Rec: execution.NewRecord(vals, retr, lib.T(et))}
+	}
+	wm := func(t int64) Msg { return Msg{Kind: kWM, WM: lib.T(t)} }
+	cl := Msg{Kind: kClose}
+	reins := []Msg{rec(iv(1, 10), false, 0), rec(iv(1, 10), true, 0), rec(iv(1, 10), false, 0), cl}
+	one := []Msg{rec(iv(1, 20), false, 0), cl}
+	buffered := []Msg{rec(iv(1, 10), false, 9), cl}
+	lower := []Msg{wm(3), rec(iv(1, 20), false, 4), cl}
+	nullKey := []Msg{rec([]octosql.Value{octosql.NewNull(), octosql.NewInt(10)}, false, 0), cl}
+	nullKey2 := []Msg{rec([]octosql.Value{octosql.NewNull(), octosql.NewInt(20)}, false, 0), rec(iv(1, 20), false, 0), cl}
+	w5 := []Msg{rec(iv(1, 100), false, 5), cl}
+	w7 := []Msg{rec(iv(1, 200), false, 7), wm(10), cl}
+	return [][2][]Msg{{reins, one}, {one, reins}, {buffered, lower}, {lower, buffered}, {nullKey, nullKey2}, {w5, w7}, {w7, w5}}
+}
+
 // genChangelog draws a valid changelog (inserts, duplicates, retractions of present rows) with zero and non-zero event times.
 func genChangelog(r *lib.Rng, arity, n int) []lib.Event {
 	var evs []lib.Event
@@ -278,16 +334,20 @@ func main() {
 	cf := lib.NewCaseFile("C02", f.Seed, f.Tier)
 	cf.Imports = []string{"JoinQuery"}
 	cf.CaseType = "c02_case"
-	cf.Checks = []lib.Check{{Name: "spec", Kind: "spec", Fn: "c02_spec"}, {Name: "lookup_tie", Kind: "tie", Fn: "c02_lookup_tie"}, {Name: "lookup_spec", Kind: "spec", Fn: "c02_lookup_spec"}}
+	cf.Checks = []lib.Check{{Name: "spec", Kind: "spec", Fn: "c02_spec"}, {Name: "lookup_tie", Kind: "tie", Fn: "c02_lookup_tie"}, {Name: "lookup_spec", Kind: "spec", Fn: "c02_lookup_spec"},
+		{Name: "node_tie", Kind: "tie", Fn: "c02_node_tie"}, {Name: "node_spec", Kind: "spec", Fn: "c02_node_spec"}}
 	cf.Side.Rule = "the built CLI on SELECT * FROM t0 x0 <JOIN|LEFT JOIN|RIGHT JOIN|OUTER JOIN|LOOKUP JOIN> t1 x1 ON <1-3 equalities [+ theta conjunct for inner/lookup]> " +
 		"[<join> t2 x2 ON ...] | right-nested x0 <JOIN|LOOKUP JOIN> (x1 <JOIN|LOOKUP JOIN> x2 ON ... incl. references to x0) ON ... [WHERE conjuncts incl. cross-table equalities that the optimizer moves into an already keyed join] over generated JSON tables (0-6 rows, NULL and duplicate keys, duplicate rows), each query with and without --optimize=false; " +
 		"inner/lookup through -o json, queries with an outer join through -o stream_native (retractions visible); oracle = rel_join computed in Coq, rows compared as bags; " +
-		"non-trivial = the expected result has a matched pair and some key is NULL or duplicated"
-	n := f.Cases(100, 1200)
+		"+ a fixed family of computed-key joins (x0.p0 + x1.p1 = x2.p2) over every nested inner/outer first join; + LookupJoin, StreamJoin and OuterJoin nodes in-process over changelogs with retractions, event times and watermarks (every schedule of a fixed family of small script pairs x every join kind, and random scripts/schedules), exact emissions against the node models and the relational oracle on the output; " +
+		"non-trivial = the expected result has a matched pair and some key is NULL or duplicated (CLI) / the node returned nil (node cases)"
+	n := f.Cases(80, 1200)
 	// the pinned-tree witness first: NULL keys on both sides, optimizer on
 	queries := 0
-	for i := 0; i < n; i++ {
+	fixedFam := fixedFamily()
+	for i := 0; i < n+len(fixedFam); i++ {
 		r := rng.Fork()
+		fixedIdx := i - n // >= 0: a member of the deterministic family (computed key over a nested outer join)
 		ntab := 2
 		if r.Chance(2, 5) {
 			ntab = 3
@@ -297,6 +357,10 @@ func main() {
 			// three-table queries draw keys from a two-value domain so that conjunctions over three tables keep matches
 			tabs[ti] = genTable(r, ti, 6, 5-ntab)
 		}
+		if fixedIdx >= 0 {
+			ntab = 3
+			tabs = fixedTables()
+		}
 		if i == 0 { // witness
 			tabs = []table{genTable(r, 0, 1, 3), genTable(r, 1, 1, 3)}
 			ntab = 2
@@ -305,11 +369,12 @@ func main() {
 		}
 		var steps []joinStep
 		hasOuter := false
+		computedKey := false
 		width := 3
 		// right-nested family: x0 K1 (x1 K2 x2 ON inner) ON outer, K1/K2 in {JOIN, LOOKUP JOIN}.  The joined side of a
 		// lookup join sees the source record, so with K1 = LOOKUP JOIN the inner ON may refer to x0 as well.  All joins
 		// being inner, the expected result is the three-way relational join on inner ++ outer.
-		rightNested := ntab == 3 && i != 0 && r.Chance(1, 2)
+		rightNested := fixedIdx < 0 && ntab == 3 && i != 0 && r.Chance(1, 2)
 		var nestedKinds [2]int
 		var innerOn, outerOn []cond
 		eqBetween := func(ta, tb int) cond {
@@ -341,7 +406,7 @@ func main() {
 			steps = []joinStep{{t: 1, kind: 0}, {t: 2, kind: 0, on: append(append([]cond{}, innerOn...), outerOn...)}}
 			width = 9
 		}
-		for ti := 1; ti < ntab && !rightNested; ti++ {
+		for ti := 1; ti < ntab && !rightNested && fixedIdx < 0; ti++ {
 			st := joinStep{t: ti, kind: []int{0, 0, 1, 2, 3, 4}[r.Intn(6)]}
 			if i == 0 {
 				st.kind = 0
@@ -378,13 +443,30 @@ func main() {
 			if (st.kind == 0 || st.kind == 4) && r.Chance(1, 3) && i != 0 {
 				st.on = append(st.on, cond{kind: "lt", i: r.Intn(ti)*3 + r.Intn(2), j: width + r.Intn(2)})
 			}
+			if ti == 2 && r.Chance(1, 3) {
+				// computed key: a strict function over columns of both sides of the nested join
+				ck := cond{kind: "eqcat", i: 2, j: 5, k: 8}
+				if r.Bool() {
+					st.on = []cond{ck}
+				} else {
+					st.on = append(st.on, ck)
+				}
+				computedKey = true
+			}
 			steps = append(steps, st)
 			width += 3
+		}
+		if fixedIdx >= 0 {
+			m := fixedFam[fixedIdx]
+			steps = []joinStep{{t: 1, kind: m[0], on: []cond{{kind: "eq", i: 0, j: 3}}}, {t: 2, kind: m[1], on: []cond{{kind: "eqcat", i: 2, j: 5, k: 8}}}}
+			hasOuter = (m[0] >= 1 && m[0] <= 3) || (m[1] >= 1 && m[1] <= 3)
+			width = 9
+			computedKey = true
 		}
 		var where []cond
 		crossWhere := false
 		splitOnWhere := !rightNested && len(steps) > 0 && steps[0].kind == 0 // inner stream join: ON gives a key, WHERE adds to it
-		if i != 0 && (r.Chance(1, ntab) || (splitOnWhere && r.Chance(1, 2))) {
+		if i != 0 && fixedIdx < 0 && (r.Chance(1, ntab) || (splitOnWhere && r.Chance(1, 2))) {
 			// an equality (sometimes an inequality) between two different tables in WHERE: the optimizer moves such
 			// equalities into the key of the join they span, in a second rewrite when ON already supplied a key
 			ta := r.Intn(ntab)
@@ -396,7 +478,7 @@ func main() {
 			where = append(where, c)
 			crossWhere = c.kind == "eq"
 		}
-		for k := r.Intn(5 - ntab); k > 0 && i != 0; k-- {
+		for k := r.Intn(5 - ntab); k > 0 && i != 0 && fixedIdx < 0; k-- {
 			g := r.Intn(width)
 			if g%3 == 2 || r.Bool() {
 				where = append(where, cond{kind: "notnull", i: g})
@@ -497,7 +579,7 @@ func main() {
 			for k, e := range evs {
 				recs[k] = fmt.Sprintf("mkrec %s %s zero_ns", lib.CoqValues(e.Rec.Values), lib.CoqBool(e.Rec.Retraction))
 			}
-			coq := fmt.Sprintf("mkc02 %s 3%%nat %s %s %s [] [] []", rowsCoq(tabs[0].rows), lib.CoqList(stepsCoq), condsCoq(where), lib.CoqList(recs))
+			coq := fmt.Sprintf("mkc02 %s 3%%nat %s %s %s [] [] [] None", rowsCoq(tabs[0].rows), lib.CoqList(stepsCoq), condsCoq(where), lib.CoqList(recs))
 			tj := make([]interface{}, len(tabs))
 			for k, t := range tabs {
 				rj := make([]interface{}, len(t.rows))
@@ -525,6 +607,12 @@ func main() {
 			if crossWhere {
 				cf.Count("where_cross_table_equality")
 			}
+			if computedKey {
+				cf.Count("computed_join_key")
+			}
+			if fixedIdx >= 0 {
+				cf.Count("fixed_family_computed_key_over_nested_join")
+			}
 			if opt {
 				cf.Count("optimized")
 			} else {
@@ -542,7 +630,7 @@ func main() {
 		}
 	}
 	// node level: LookupJoin over changelogs with retractions on the source and on the joined side
-	nl := f.Cases(120, 1200)
+	nl := f.Cases(80, 1200)
 	for i := 0; i < nl; i++ {
 		r := rng.Fork()
 		src := genChangelog(r, 1+r.Intn(2), r.Intn(6))
@@ -563,7 +651,7 @@ func main() {
 			}
 			return false
 		}
-		coq := fmt.Sprintf("mkc02 [] 0%%nat [] [] [] %s %s %s", recsOf(src), recsOf(joined), lib.CoqEvents(out))
+		coq := fmt.Sprintf("mkc02 [] 0%%nat [] [] [] %s %s %s None", recsOf(src), recsOf(joined), lib.CoqEvents(out))
 		js := map[string]interface{}{"node": "LookupJoin", "source": lib.EventsJSON(src), "joined": lib.EventsJSON(joined), "emitted": lib.EventsJSON(out)}
 		idx := cf.Add(coq, js, hasRetr(src) && hasRetr(joined))
 		cf.Count("node_lookup_join")
@@ -576,6 +664,37 @@ func main() {
 		if p != nil {
 			cf.Violation(idx, fmt.Sprintf("LookupJoin panicked: %v", p), "")
 		}
+	}
+	// node level: StreamJoin / OuterJoin over changelogs with retractions, event times and watermarks, under prescribed
+	// schedules; (1) a deterministic family: every schedule of a few small script pairs x every join kind,
+	// (2) random scripts and schedules
+	addNode := func(cfg config, left, right []Msg, choice []bool, tag string) {
+		coq, js, obs := nodeCase(cfg, left, right, choice)
+		idx := cf.Add("mkc02 [] 0%nat [] [] [] [] [] [] (Some "+coq+")", js, obs.status == 0)
+		cf.Count("node_" + kindNames[cfg.kind] + "_join")
+		cf.Count(tag)
+		if obs.note != "" {
+			cf.Violation(idx, "schedule replay broke: "+obs.note, "")
+		}
+		if obs.status != 0 {
+			cf.Violation(idx, fmt.Sprintf("the join did not return nil (status %d) on a valid changelog", obs.status), "")
+		}
+	}
+	for _, t := range nodeTemplates() {
+		for kind := 0; kind < 4; kind++ {
+			cfg := config{kind: kind, kl: []int{0}, kr: []int{0}, nl: 2, nr: 2}
+			for _, c := range allChoices(len(t[0]), len(t[1])) {
+				addNode(cfg, t[0], t[1], c, "node_fixed_family_all_schedules")
+			}
+		}
+	}
+	nn := f.Cases(100, 1500)
+	for i := 0; i < nn; i++ {
+		r := rng.Fork()
+		cfg := genConfig(r)
+		left := genScript(r, r.Intn(8), cfg.nl, cfg.kl, false)
+		right := genScript(r, r.Intn(8), cfg.nr, cfg.kr, false)
+		addNode(cfg, left, right, randomChoice(r, len(left), len(right)), "node_random")
 	}
 	cf.Side.Notes = append(cf.Side.Notes, fmt.Sprintf("%d distinct queries, each run with the optimizer on and off", queries))
 	if err := cf.Write(f.Out); err != nil {
